@@ -86,6 +86,7 @@ type Unit struct {
 	specDepth int
 	outerDecl *ast.FuncDecl
 	epochN int
+	inAtomic int
 }
 
 const maxPaths = 6000
